@@ -1,0 +1,34 @@
+//go:build verif
+
+package apply
+
+// Contracts for the apply plugin (C15, C01, C09), read by /verif's gvc (comment-only file).
+// $arg<d>_<i> is the i-th argument of the function literal at nesting depth d.
+
+//@ func (g *gen) Add(name string, typs []types.Type) (r string, err error)
+//@ param typs: len=0,1,2,3
+//@ param name: classes=Ident
+
+//@ func (g *gen) parseTypes(name string, typs []types.Type) (sig *types.Signature, lastArg types.Type, err error)
+
+//@ func (g *gen) Generate(typs []types.Type) (err error)
+//@ param typs: len=2
+//@ name-variants
+//@ emits: decls
+//@ serves: apply len=2 typs=typs
+//@ o-sig: (f $typs[0], last $typs[1]) (r func())
+//@ o-header: unchecked
+//@ o-requires: f != nil
+//@ o-closure: cr0 cr1 cr2
+//@ o-closure-ensures: when nparams(typs[0])=1 [one-call-arguments-in-place] traceLen() == 1 && called(0, f, last)
+//@ o-closure-ensures: when nparams(typs[0])=1 when nresults(typs[0])=1 [results-unchanged] cr0 == result(0, f, last)
+//@ o-closure-ensures: when nparams(typs[0])=1 when nresults(typs[0])=2 [results-unchanged] cr0 == result(0, f, last) && cr1 == result(1, f, last)
+//@ o-closure-ensures: when nparams(typs[0])=1 when nresults(typs[0])=3 [results-unchanged] cr0 == result(0, f, last) && cr1 == result(1, f, last) && cr2 == result(2, f, last)
+//@ o-closure-ensures: when nparams(typs[0])=2 [one-call-arguments-in-place] traceLen() == 1 && called(0, f, $arg0_0, last)
+//@ o-closure-ensures: when nparams(typs[0])=2 when nresults(typs[0])=1 [results-unchanged] cr0 == result(0, f, $arg0_0, last)
+//@ o-closure-ensures: when nparams(typs[0])=2 when nresults(typs[0])=2 [results-unchanged] cr0 == result(0, f, $arg0_0, last) && cr1 == result(1, f, $arg0_0, last)
+//@ o-closure-ensures: when nparams(typs[0])=2 when nresults(typs[0])=3 [results-unchanged] cr0 == result(0, f, $arg0_0, last) && cr1 == result(1, f, $arg0_0, last) && cr2 == result(2, f, $arg0_0, last)
+//@ o-closure-ensures: when nparams(typs[0])=3 [one-call-arguments-in-place] traceLen() == 1 && called(0, f, $arg0_0, $arg0_1, last)
+//@ o-closure-ensures: when nparams(typs[0])=3 when nresults(typs[0])=1 [results-unchanged] cr0 == result(0, f, $arg0_0, $arg0_1, last)
+//@ o-closure-ensures: when nparams(typs[0])=3 when nresults(typs[0])=2 [results-unchanged] cr0 == result(0, f, $arg0_0, $arg0_1, last) && cr1 == result(1, f, $arg0_0, $arg0_1, last)
+//@ o-closure-ensures: when nparams(typs[0])=3 when nresults(typs[0])=3 [results-unchanged] cr0 == result(0, f, $arg0_0, $arg0_1, last) && cr1 == result(1, f, $arg0_0, $arg0_1, last) && cr2 == result(2, f, $arg0_0, $arg0_1, last)
